@@ -171,3 +171,30 @@ mod tests {
         assert!(resolver.proc_timers.is_empty());
     }
 }
+
+#[cfg(anysystem_verif)]
+impl DependencyResolver {
+    /// Verification hook: (id, proc, delay, blockers) of every tracked timer.
+    pub fn verif_timers(&self) -> Vec<(McEventId, String, McTime, Vec<McEventId>)> {
+        self.timers
+            .iter()
+            .map(|(id, t)| (*id, t.proc.clone(), t.delay, t.blockers.iter().cloned().collect()))
+            .collect()
+    }
+
+    /// Verification hook: groups of identical messages with their id queues.
+    pub fn verif_messages(&self) -> Vec<((Message, String, String), Vec<McEventId>)> {
+        self.messages
+            .iter()
+            .map(|(k, v)| (k.clone(), v.iter().cloned().collect()))
+            .collect()
+    }
+
+    /// Verification hook: timer ids per process.
+    pub fn verif_proc_timers(&self) -> Vec<(String, Vec<McEventId>)> {
+        self.proc_timers
+            .iter()
+            .map(|(k, v)| (k.clone(), v.iter().cloned().collect()))
+            .collect()
+    }
+}
